@@ -1,0 +1,23 @@
+package decimal
+
+// Sites of the verification hooks (see verif_hooks_on.go / verif_hooks_off.go).
+const (
+	verifSiteDivAddBack    = iota // divBasic: quotient digit was one too large, divisor added back
+	verifSiteDivQhatFix           // divBasic: q̂ decremented by the two-word test
+	verifSiteDivRecFix1           // divRecursiveStep: q̂ correction in the block loop
+	verifSiteDivRecFix2           // divRecursiveStep: q̂ correction in the final step
+	verifSiteDivRecursive         // divRecursive entered
+	verifSiteKaratsuba            // decKaratsuba recursing (n >= threshold)
+	verifSiteKaratsubaNeg         // decKaratsuba: (x1-x0)(y0-y1) negative
+	verifSiteKaratsubaSqr         // decKaratsubaSqr recursing
+	verifSiteBasicSqr             // decBasicSqr used
+	verifSiteRound                // round: mantissa longer than the precision
+	verifSiteRoundCarry           // round: increment carried out of an all-nines mantissa
+	verifSiteRoundOverflow        // round: that carry overflowed the exponent
+	verifSiteCancel               // usub: operands cancelled exactly
+	verifSiteUnderflow            // setExpAndRound: exponent below MinExp
+	verifSiteOverflow             // setExpAndRound: exponent above MaxExp
+	verifSitePoolGet              // getDec
+	verifSitePoolPut              // putDec
+	verifNumSites
+)
